@@ -106,7 +106,7 @@ func randBundle(r *Rng, ver bver.Version, n int) *bundle.Bundle {
 		case 2:
 			e.Response.Header[[]string{":foo", ":path", ":", ":STATUS", "a:b"}[r.Intn(5)]] = []string{"v"}
 		case 3:
-			e.Response.Status = []int{99, 1000, 0, -5, 10000, 100, 999}[r.Intn(7)]
+			e.Response.Status = []int{99, 1000, 0, -5, 10000, 100, 999, -10, -42, -99, -100, 1200}[r.Intn(12)]
 		case 4:
 			u := e.Request.URL.String()
 			if strings.HasPrefix(u, "https://") {
@@ -254,6 +254,17 @@ func genC03(r *Rng, tier string) []Case {
 				cs = append(cs, Case{"bundle_read", []Sx{B(buf.Bytes()), x509SigTab(nil)}})
 			}
 		}()
+	}
+	// statuses whose decimal form has three characters without being three digits, and neighbours
+	for _, ver := range []bver.Version{bver.VersionB1, bver.VersionB2} {
+		for _, st := range []int{-99, -42, -10, -9, -100, 99, 100, 999, 1000} {
+			b := randBundle(r, ver, 1)
+			for len(b.Exchanges) < 1 {
+				b = randBundle(r, ver, 1)
+			}
+			b.Exchanges[0].Response.Status = st
+			cs = append(cs, Case{"bundle_write", []Sx{bundleInSx(b), Sym("buffer")}})
+		}
 	}
 	// URLs a caller may have assembled field by field: a fragment behind a query (hidden in RawQuery), in the exchange
 	// URL, the primary URL, the manifest URL - the writer must judge the text it is about to write
